@@ -174,3 +174,23 @@ pub fn shuffle<T>(v: &mut [T], rng: &mut Rng) {
         v.swap(i, j);
     }
 }
+
+/// identifiers for sketchers using NoHashHasher (the value is the hash): adversarial hash values first
+/// (0, u64::MAX = the initial value of several sketch fields, u32::MAX, small integers), then random ones
+pub fn ids_with_specials(rng: &mut Rng, n: usize) -> Vec<u64> {
+    let specials = [u64::MAX, 0u64, 1, u32::MAX as u64, u64::MAX - 1, 1 << 63, 2, 0xffff_ffff_0000_0000];
+    let mut v: Vec<u64> = Vec::with_capacity(n);
+    let k = rng.random_range(1..=specials.len()).min(n);
+    let off = rng.random_range(0..specials.len());
+    for i in 0..k {
+        v.push(specials[(off + i) % specials.len()]);
+    }
+    while v.len() < n {
+        let x = rng.next_u64();
+        if !specials.contains(&x) {
+            v.push(x);
+        }
+    }
+    shuffle(&mut v, rng);
+    v
+}
